@@ -618,6 +618,11 @@ type loopFrameRec struct {
 // ground index read from the havocked arrays (through stores, joins and named definitions). Fewer assumptions than
 // the quantified facts, so nothing is proved that they would not prove.
 func (e *Exec) instantiateLoopFrames(ts []*Term) ([]*Term, []*Term) {
+	// witnesses named by Polarize put element / sub-object refs outside their binders: they need their facts too
+	rs := map[int]bool{}
+	for _, t := range ts {
+		e.refFacts(t, rs)
+	}
 	if len(e.loopFrames) == 0 {
 		return ts, nil
 	}
